@@ -96,7 +96,7 @@ func runC02(cx *Ctx, r *Report) {
 				first = x.ev
 			}
 			fs := x.w.FactsAt(x.ev.Fr, x.ev.Site)
-			if _, ok := hasFact(fs, false, "time.Time.After(sdk.Context.BlockHeader().Time, time.Unix(msg.Deadline, 0))"); !ok {
+			if _, ok := hasFact(fs, false, "time.Time.After(sdk.Context.BlockTime(), time.Unix(msg.Deadline, 0))"); !ok {
 				okAll = false
 				r.violate("deadline-guard", name+"|"+x.ev.Kind, x.ev.Pos(cx), "bank effect reachable in "+name+" without the dominating test blockTime.After(msg.Deadline) on chain "+x.ev.Fr.String())
 				break
